@@ -133,6 +133,38 @@ def run(chk, w):
     # ---- DIR
     dir_rule(chk, P, "C09-DIR")
 
+    # ---- TRUNC: range checks see the argument, not a narrowed copy of it
+    chk.rule("C09-TRUNC", "no range check of a high-level command is applied to a narrowed copy of a wider value that may not fit (interval analysis): an out-of-range "
+                          "argument is rejected as such and never wrapped into the valid range first")
+    E2 = intervals.Engine(w, set())
+    ntr = 0
+    for f in P.repo_functions():
+        if not f.blocks or not f.relfile.startswith("src/highlevel/bidib_highlevel_setter"):
+            continue
+        fa = None
+        for i in f.all_insts():
+            if i.op != "trunc" or i.get("ty") not in ("i8", "i16"):
+                continue
+            fa = fa or E2.analysis(f, None)
+            lo = hi = None
+            for st in fa.pre.get(i.id, []):
+                iv = fa.iv(i["a"], st)
+                lo = iv[0] if lo is None else min(lo, iv[0])
+                hi = iv[1] if hi is None else max(hi, iv[1])
+            if lo is None:
+                continue            # unreachable in the abstract interpretation
+            ntr += 1
+            bits = int(i["ty"][1:])
+            if lo >= -(1 << (bits - 1)) and hi < (1 << bits):
+                chk.ok("C09-TRUNC", 1, None)
+            elif not _compared_with_constant(f, i):
+                # a deliberate byte extraction (low / high byte of an address): the narrowed value is encoded, never range-checked
+                chk.ok("C09-TRUNC", 1, None)
+            else:
+                chk.violation("C09-TRUNC", f.name, "trunc@%d" % i.line, i.loc(), "the value narrowed to %d bits at line %d may lie in [%s, %s]: it is wrapped modulo %d before any range check sees it, so an "
+                              "out-of-range argument (e.g. a speed of 300) is accepted as a different, valid one" % (bits, i.line, lo, hi, 1 << bits))
+    chk.floor("narrowing_conversions", ntr, 6)
+
     # ---- UNCOND
     uncond_rule(chk, P, S, "C09-UNCOND", [f_.name for f_ in P.repo_functions() if f_.relfile.startswith("src/highlevel/bidib_highlevel_setter")], 12)
 
@@ -352,6 +384,37 @@ def _speed_codec(P):
     if not masks or not any(d_ == masks[0] + 1 for d_ in dirbits):
         raise AnalysisBroken("speed byte layout not recognised (mask %s, direction bit %s)" % (masks, sorted(set(dirbits))))
     return enc, masks[0]
+
+
+def _compared_with_constant(f, tr):
+    """the truncated value (through casts and locals it is stored to) is an operand of a comparison with a constant"""
+    vals = {tr.id}
+    cells = set()
+    changed = True
+    while changed:
+        changed = False
+        for i in f.all_insts():
+            if i.id in vals:
+                continue
+            if i.op in ("zext", "sext", "trunc") and i["a"].get("k") == "inst" and i["a"]["id"] in vals:
+                vals.add(i.id)
+                changed = True
+            elif i.op == "store" and i["val"].get("k") == "inst" and i["val"]["id"] in vals and i["ptr"].get("k") == "inst" and f.insts[i["ptr"]["id"]].op == "alloca":
+                if i["ptr"]["id"] not in cells:
+                    cells.add(i["ptr"]["id"])
+                    changed = True
+            elif i.op == "load" and i["ptr"].get("k") == "inst" and i["ptr"]["id"] in cells:
+                # only locals that are assigned once (the narrowed copy), not reused scratch variables
+                sts = [s_ for s_ in f.all_insts() if s_.op == "store" and s_["ptr"].get("k") == "inst" and s_["ptr"]["id"] == i["ptr"]["id"]]
+                if len(sts) == 1:
+                    vals.add(i.id)
+                    changed = True
+    for i in f.all_insts():
+        if i.op == "icmp" and i["pred"] not in ("eq", "ne"):
+            for a_, b_ in ((i["a"], i["b"]), (i["b"], i["a"])):
+                if a_.get("k") == "inst" and a_["id"] in vals and rules.const_of(f, b_) is not None:
+                    return True
+    return False
 
 
 def uncond_rule(chk, P, S, rid, fnames, floor):
